@@ -506,6 +506,8 @@ def run(rep, tier, rng):
     def fail(key, what, **replay):
         fails.append(C.Failure(key, what, replay))
 
+    first_out = {}
+
     def check_rendering(rd, ws0, kind):
         """property predicate on the implementation for one in-domain rendering"""
         s = render(rd, ws0)
@@ -518,6 +520,7 @@ def run(rep, tier, rng):
             raise RuntimeError("harness: reference reader disagrees with the generator on %r" % (s,))
         out = impl_parse(P, s)
         texts.append(s)
+        first_out[s] = (out, want)
         rep.count(s, nontrivial=(out[0] == "ok"), kind=kind)
         if out != ("ok", want):
             key = classify_c02(rd, s, out)
@@ -601,6 +604,20 @@ def run(rep, tier, rng):
             rep.count(("ofxtree", s), nontrivial=False, kind="via-OFXTree.parse")
             if o1 != o2:
                 fail("ofxtree-differs-from-builder", "OFXTree.parse(header+%r) -> %r but TreeBuilder -> %r" % (s, o2, o1), text=s, via="OFXTree", observed=o2)
+
+    # ---------------- "one and the same tree" also AFTER the parser has refused something: every parse uses a new TreeBuilder ----------------
+    goods = [t for t, (o, w) in first_out.items() if o == ("ok", w) and len(t) < 300]
+    goods = goods if len(goods) <= 12 else rng.sample(goods, 12)
+    leaked = False
+    for bad in ["<OFX><A><B>1", "<A><B></A>", "<A>1</A></A>", "<A>1</A>junk", "<A></A><B>"]:
+        ob = impl_parse(P, bad)
+        for good in goods:
+            again = impl_parse(P, good)
+            rep.count(("then", bad, good), nontrivial=False, kind="rendering-after-refused-body")
+            if again != first_out[good][0] and not leaked:
+                leaked = True
+                fail("state-leaks-between-parses", "after TreeBuilder on %r -> %r, a NEW TreeBuilder on the rendering %r -> %r (before: its document's tree)" % (bad, ob, good, again),
+                     text=bad, then=good, expected=first_out[good][1], observed=again)
 
     # ---------------- malformed / arbitrary stream: model vs implementation only ----------------
     dstr = deep_strings(rng, tier, deep)
@@ -738,6 +755,9 @@ def replay(obj):
     out = impl_ofxtree(P, s) if r.get("via") == "OFXTree" else impl_parse(P, s)
     want = r.get("expected")
     print("replay TreeBuilder on %r -> %r" % (s, out))
+    if "then" in r:
+        out = impl_parse(P, r["then"])
+        print("then a new TreeBuilder on %r -> %r" % (r["then"], out))
     if want is not None:
         want = tuple_tree(want)
         bad = out != ("ok", want)
